@@ -91,14 +91,30 @@ func targets() []*target {
 				}
 				return nil
 			}},
+
+		// ---- second generation (strict: see the head of decisions.go) ----
+		{pkg: slogPkg, recv: "dualWriter", fn: "Get", coq: "route", file: "Routing", strict: true, fallback: "GenRef.route_ref",
+			comment: "(routing of a severity; writer lists are lists of members, s.leveled is a nil-able map)",
+			tymap:   map[string]string{"LWs": "list member"},
+			params:  []string{"(m_mLevelUseErrorDevice : list (Z * bool))", "(g_discardWriter s_Normal s_Error : list member)", "(s_leveled : gomap (list member))", "(lvl : Z)"},
+			result:  "list member", final: "w"},
 	}
 }
 
-func genDecisions() string {
+// the generated files of the translator: name, Require line
+var genFiles = [][2]string{
+	{"Decisions", "Require Import Verif.Model.Base Verif.Model.Decision Verif.Model.DecisionRef Verif.Model.Level."},
+	{"Routing", "Require Import Verif.Model.Base Verif.Model.Decision Verif.Model.GoSem Verif.Model.Writers Verif.Model.GenRef."},
+}
+
+func genDecisions(file, require string) string {
 	var sb strings.Builder
 	sb.WriteString("(* GENERATED from /repo by /verif/extract - do not edit.\n   Gallina translations of the decision functions (DESIGN.md appendix B).\n   A site outside the fragment falls back on the reference definition and is flagged [translated_* = false]. *)\n")
-	sb.WriteString("Require Import Verif.Model.Base Verif.Model.Decision Verif.Model.DecisionRef Verif.Model.Level.\n\n")
+	sb.WriteString(require + "\n\n")
 	for _, t := range targets() {
+		if t.file != file && !(t.file == "" && file == "Decisions") {
+			continue
+		}
 		def, ok, why := translate(t)
 		if ok {
 			sb.WriteString(def)
